@@ -7,7 +7,7 @@ string manipulation and object dtype arrays.
 import warnings
 import numpy as np
 
-from .base import BackendProvider
+from .base import BackendProvider, kg_nest_shape, kg_ragged_array
 
 # numpy 2.x moved VisibleDeprecationWarning to numpy.exceptions
 from numpy.exceptions import VisibleDeprecationWarning as NumpyVisibleDeprecationWarning
@@ -189,6 +189,8 @@ class NumpyBackendProvider(BackendProvider):
             if arr.dtype.kind not in ['O', 'i', 'f']:
                 raise ValueError
         except (NumpyVisibleDeprecationWarning, ValueError):
+            if kg_nest_shape(a) is None:
+                return kg_ragged_array(a, self.kg_asarray)
             try:
                 arr = self._np.asarray(a, dtype=object)
             except ValueError:
